@@ -7,7 +7,25 @@ CLAIMS = {
  "C14": ("Verus discharges a pop-if-present contract on the real Iter::next and Drop for every smoother state, payload and stash (unbounded): consecutive tags, each once, never an unconfirmed tag, outcome of the first covering confirmation, early drop equals full iteration.",
          "tags < 2^64-1; process/new_iter glue (fn pointers, outside Verus) checked by Kani in the thorough tier only; Drop loop termination not proved; trait dispatch of Iterator::next assumed (R6)"),
  "C10": ("Verus proves the representation invariant and exact Map-view postconditions of every operation of the real ChannelSlots (insert Some/None, remove, drain, get_mut, set_channel_max) for all channel_max, all tables and all operation sequences (invariant induction): ids unique, within 1..=channel_max, 0 rejected, freed ids reusable, Exhausted only when full, allocation loop terminates, no panic/overflow.",
-         "indexmap::IndexSet by assumed set contract; HashMap::drain/iter/get_mut by assumed contracts (prelude mirrors); completeness of ExhaustedChannelIds (W4) not claimed after a failed entry constructor (poll registration fault); the allocation request/response between Connection and the I/O thread is sequential glue checked in unit event"),
+         "indexmap::IndexSet by assumed set contract; HashMap::drain/iter/get_mut by assumed contracts (prelude mirrors); completeness of ExhaustedChannelIds (W4) not claimed after a failed entry constructor (poll registration fault); the request/response hand-over between Connection and the I/O thread (threads) is outside"),
+ "C15": ("Verus proves on the real make_tune_ok, for all 2^96 option/Tune combinations, that TuneOk carries the lower limit with 0 as unlimited, the lower heartbeat, and FrameMaxTooSmall exactly below 4096; ChannelSlots proves no id above channel_max is ever handed out.",
+         "heartbeat timing (C17) and the frame splitter's use of frame_max (C02) are separate units; the straight-line hand-over of TuneOk values in thread_main is not under contract yet"),
+ "C06": ("Verus proves on the real Inner<Kind>::read_from (generic FrameKind, FnMut handler) and AmqpFrameKind: byte conservation between transport, buffer and handled frames for every read segmentation and would-block pattern, frames parsed only when fully buffered and with exactly the announced size, buffer advanced by exactly the handled frame and only after the handler accepted it, no read while a complete frame is buffered, and the error mapping.",
+         "input_buffer::InputBuffer, parse_long_uint and amq_protocol::parse_frame by assumed contracts; a transport delivers < 2^64 bytes; the loop is partial correctness (it ends only on would-block/EOF/error by design); the identity of the frame sequence as a function of the bytes follows from these per-iteration obligations by induction, stated in DESIGN.md, not machine-checked"),
+ "C03": ("Verus proves the real content collector (all three kinds, generic State<T>) against an abstract state machine for every header/body partition, and the real process() dispatcher: content frames touch only their channel's collector, a completed delivery/get/return is offered to exactly its addressee with every field copied, for every state and frame.",
+         "cross-thread queue order and read segmentation (C06) are separate; crossbeam try_send is non-blocking on unbounded queues (assumed); 'exactly once' is permission + receipt (no second addressee, the expected one happened), the same allowed send twice is excluded only syntactically"),
+ "C04": ("Verus proves on the real process(): every -Ok method, GetEmpty, ConsumeOk, CancelOk and CloseOk is offered to the reply queue of the frame's channel id and to no other queue; unknown ids give ReceivedFrameWithBogusChannelId.",
+         "the client half (IoLoopHandle::call/recv type-check and the value copies in channel.rs) is not under contract yet; overlap of calls across threads is outside"),
+ "C07": ("Verus proves for every ConnectionState, slot table, collector state and frame that process() and everything it calls reaches no panic site, never overflows, sends nothing outside the allowed set, maps each violation to its error (FrameUnexpected, ReceivedFrameWithBogusChannelId, UnknownConsumerTag, DuplicateConsumerTag) or to Connection.Close with 530/540 followed by sealing and ClientException, and ignores frames afterwards.",
+         "memory exhaustion is not modelled beyond the documented with_capacity panic; reading 'a new method while content is outstanding' as a new content-bearing method (DESIGN.md C07)"),
+ "C08": ("Verus proves the sealing invariant of SealableOutputBuffer for every operation (nothing appended after the seal), the close arms of process() (CloseOk pushed then sealed, every slot and consumer notified with the server's code/text or ClientClosedConnection, table emptied, state change) with unbounded loop invariants over the drains, and ConnectionClose message handling.",
+         "is_connection_done/run_connection result mapping and Channel0Handle::close_connection are not under contract yet; 'whether or not the server closes the socket right after' is not decidable by a contract here (DESIGN.md F8)"),
+ "C09": ("Verus proves on the real process(): Channel.Close(n) removes exactly slot n (every other slot equal to its old value), tells the caller and every consumer ServerClosedChannel with n, code and text, queues Channel.CloseOk on n; a stale wake-up for a removed slot is ignored; the id is reusable (ChannelSlots).",
+         "waking the in-flight caller is crossbeam's; IoLoopHandle::check_recv_for_error not under contract yet"),
+ "C11": ("Verus proves on the real process(): the consumer's sender leaves the table exactly in the arm that sends its terminal message (ServerCancelled, ClientCancelled, Client/ServerClosedChannel, Client/ServerClosedConnection), CancelOk is answered unless nowait, deliveries never remove a consumer.",
+         "Consumer::cancel idempotence / Drop (consumer.rs) not under contract yet; in-order arrival is crossbeam FIFO (assumed); disconnect on drop of the sender is Rust/crossbeam semantics"),
+ "C13": ("Verus proves on the real process() and Inner::process_channel_message: Ack/Nack/Return/Blocked/Unblocked are offered verbatim to the current listener and to nobody else, a failed send clears the listener without error, registering a listener replaces exactly that field of that slot.",
+         "handle_set_blocked_tx and the ordering of registration versus later publishes through the mio FIFO are not under contract (schedules)"),
 }
 NA = {
  "C18": "every clause is about concurrency or liveness (blocking publishers, mio edge-triggered re-registration, kernel poll state); no contract within reach of Verus/Kani expresses it (DESIGN.md section 5)",
@@ -21,7 +39,7 @@ def main():
         if f.get('status') == 'fixed' and f.get('commit') and f['commit'] not in fixes:
             fixes.append(f['commit'])
     m = {"version": 1,
-         "setup_cmd": "mkdir -p build replays .cache && python3 tool/vc.py assemble confirm >/dev/null",
+         "setup_cmd": "mkdir -p build replays .cache && python3 tool/gen_protocol.py && python3 tool/vc.py assemble confirm >/dev/null",
          "hooks": {"guard": "kani",
                    "enable": "no hook lives in /repo: Verus units are re-extracted from /repo's working tree on every run; Kani harnesses are injected add-only into a scratch overlay (cfg(kani) is set by cargo-kani there)",
                    "baseline_off_cmd": "cd /repo && cargo test --workspace --no-fail-fast --offline",
